@@ -17,7 +17,7 @@ ASSUMPTIONS = [
     "case-insensitive cases use only characters on which str.upper, str.lower, str.casefold and re.IGNORECASE agree",
 ]
 GATES = ["mon.C07.get", "mon.C07.roundtrip_abs", "mon.C07.roundtrip_rel", "C07.err.ResolverError", "C07.err.RootResolverError", "C07.err.ChildResolverError",
-         "C07.relaxed_miss_first", "C07.relaxed_miss_middle", "C07.relaxed_miss_last", "C07.ignorecase_hit", "C07.sep_other", "C07.wildcard_chars_in_names", "C07.after_mutation"]
+         "C07.relaxed_miss_first", "C07.relaxed_miss_middle", "C07.relaxed_miss_last", "C07.ignorecase_hit", "C07.sep_other", "C07.wildcard_chars_in_names", "C07.after_mutation", "C07.option_attributes_reassigned"]
 
 _CLS = {}
 
@@ -67,6 +67,10 @@ def check_get(ctx, lib, nodes, idmap, par, ch, names, start, path, sep, ic, rela
     snames = [str(x) for x in names]
     exp = RR.ref_get(par, ch, snames, start, path, sep, ic)
     r = resolver if resolver is not None else lib.Resolver(pathattr, ignorecase=ic, relax=relax)
+    if resolver is not None and (r.ignorecase, r.relax) != (ic, relax):
+        # one long-lived object whose public option attributes are reassigned before use
+        r.ignorecase, r.relax = ic, relax
+        ctx.count("C07.option_attributes_reassigned")
     obs = observe(r.get, nodes[start], path)
     cfg = dict(case, start=start, path=path, ignorecase=ic, relax=relax)
     if exp[0] == "node":
@@ -238,9 +242,12 @@ def histories(ctx, lib):
         rng = ctx.rng("hist", h)
         k = rng.randint(3, 8)
         res = {(ic, relax): lib.Resolver("name", ignorecase=ic, relax=relax) for ic in (False, True) for relax in (False, True)}
+        if h % 3 == 0:
+            one = lib.Resolver("name")
+            res = {key: one for key in res}
         names = None
         renames = []
-        for nodes, par, ch, case in TR.evolving_universe(ctx, rng, "Node", k, rng.randint(4, 16)):
+        for nodes, par, ch, case in TR.evolving_universe(ctx, rng, "Node", k, rng.randint(4, 16), fault_rate=(0.3 if h % 2 else 0.0)):
             if names is None:
                 names = [n.name for n in nodes]
             for _ in range(rng.randint(0, 2)):
@@ -257,7 +264,7 @@ def histories(ctx, lib):
                     renames.append([len(case["history"]), "set", i, new])
             ctx.count("C07.after_mutation")
             idmap = {id(o): i for i, o in enumerate(nodes)}
-            c2 = dict(case, kind="hist", sep="/", names=list(names), renames=[list(x) for x in renames])
+            c2 = dict(case, kind="hist", sep="/", names=list(names), renames=[list(x) for x in renames], single_resolver=(h % 3 == 0))
             for q in range(10):
                 s = rng.randrange(k)
                 t = rng.randrange(k)
@@ -293,6 +300,9 @@ def replay_history(ctx, wit):
     c = wit["case"]
     ctx.case(("replay",))
     res = {(ic, relax): lib.Resolver("name", ignorecase=ic, relax=relax) for ic in (False, True) for relax in (False, True)}
+    if c.get("single_resolver"):
+        one = lib.Resolver("name")
+        res = {key: one for key in res}
     names = None
     for step, (nodes, par, ch) in enumerate(TR.replay_universe(c)):
         if names is None:
